@@ -436,9 +436,43 @@ class Interp:
         if key in self.assume:
             r = bool(self.assume[key])
         else:
-            r = self.choose(2, key) == 0
+            forced = self._eq_forced(v)
+            r = forced if forced is not None else (self.choose(2, key) == 0)
             self.assume[key] = r
+            if r:
+                self._eq_note(v)
         return r != neg
+
+    def _eq_parts(self, v):
+        """(subject-text, literal) for `x == literal` comparisons."""
+        if v[0] == "term" and T.short(v[1], 2) in ("PartialEq::eq", "impls::eq", "cmp::eq") and len(v[2]) == 2:
+            a, b = v[2]
+            if b[0] == "lit" and a[0] != "lit":
+                return vstr(a), b[1]
+            if a[0] == "lit" and b[0] != "lit":
+                return vstr(b), a[1]
+        if v[0] == "bin" and v[1] == "Eq":
+            a, b = v[2], v[3]
+            if b[0] == "lit" and a[0] != "lit":
+                return vstr(a), b[1]
+            if a[0] == "lit" and b[0] != "lit":
+                return vstr(b), a[1]
+        return None
+
+    def _eq_forced(self, v):
+        """A value already assumed equal to one literal is not equal to a different one."""
+        p = self._eq_parts(v)
+        if p is None:
+            return None
+        known = self.assume.get("is:" + p[0])
+        if known is not None and known != p[1]:
+            return False
+        return None
+
+    def _eq_note(self, v):
+        p = self._eq_parts(v)
+        if p is not None:
+            self.assume.setdefault("is:" + p[0], p[1])
 
     # -- projections / patterns -----------------------------------------------------------------
     def project(self, base, name):
